@@ -338,6 +338,15 @@ impl PeerHandler {
                     None => (),
                 }
             }
+            BroadCmd::PieceReleased => {
+                // Ask for a piece, same as after unchoke, when peer lets us download and nothing is requested
+                if self.peer_state.handshake_done
+                    && !self.peer_state.choked
+                    && self.piece_rx.is_none()
+                {
+                    self.trigger_cmd_recv_unchoke().await?;
+                }
+            }
         }
 
         #[cfg(rdest_verif)]
